@@ -108,7 +108,7 @@ pub fn append_provider_cursor_updated(
 /// Direct drivers of the task log writer / range reader / output pump (property C17).
 pub mod tasks {
     pub use crate::tasks::verif_hooks::{
-        log_writer_run, pump_run, read_artifact_range, truncate_utf8,
+        log_writer_run, pty_emit_run, pump_run, read_artifact_range, truncate_utf8,
     };
     pub use crate::tasks::verif_hooks::TaskStreamDriver;
 }
